@@ -31,6 +31,16 @@ def mem_cfgs(ctx):
 INVS = ["C10_Bounded", "C10_Curvature", "MatrixClaims", "C06_RestoreIsLastN", "C13_FilterLaws", "Dump"]
 
 
+class RecSet:
+    """The states emitted by one Memory.tla run, kept on disk (one JSON record per line, NCPU files)."""
+
+    def __init__(self, files, count, maxcors, samples):
+        self.files, self.count, self.maxcors, self.samples = files, count, maxcors, samples
+
+    def __len__(self):
+        return self.count
+
+
 def memory_states(ctx, c):
     p = ctx.tmp / f"Memory_{c['N']}_{c['AlphaSel']}_{c['MaxHist']}.cfg"
     with open(p, "w") as fh:
@@ -38,29 +48,27 @@ def memory_states(ctx, c):
                  f"  N = {c['N']}\n  MaxCors = {{{', '.join(map(str, c['MaxCors']))}}}\n  MaxHist = {c['MaxHist']}\n"
                  f"  AlphaSel = \"{c['AlphaSel']}\"\n  MatrixPairs = {c['MatrixPairs']}\n"
                  + "".join(f"INVARIANT {i}\n" for i in INVS))
-    res = run_tlc(ctx, f"design:Memory {c}", "Memory", str(p), workers="auto", timeout=7200)
+    res = run_tlc(ctx, f"design:Memory {c}", "Memory", str(p), workers="auto", timeout=7200, split_json=NCPU)
     if not res["ok"]:
-        tail = "\n".join(l for l in res["out"].splitlines() if not l.startswith('"{'))[-2500:]
-        raise Machinery(f"design run Memory failed - specification bug:\n{tail}")
-    recs = []
-    for line in res["out"].splitlines():
-        if line.startswith('"{'):
-            r = json.loads(json.loads(line))
-            r["_maxcors"] = c["MaxCors"]
-            recs.append(r)
-    if len(recs) != res["distinct"]:
-        raise Machinery(f"Memory: {len(recs)} records for {res['distinct']} states")
-    return recs
+        raise Machinery(f"design run Memory failed - specification bug:\n{res['out'][-2500:]}")
+    if res["json_count"] != res["distinct"]:
+        raise Machinery(f"Memory: {res['json_count']} records for {res['distinct']} states")
+    samples = []
+    with open(res["json_chunks"][0]) as fh:
+        for k, line in enumerate(fh):
+            if k >= 2:
+                break
+            samples.append(json.loads(json.loads(line)))
+    return RecSet(res["json_chunks"], res["json_count"], c["MaxCors"], samples)
 
 
 def replay_states(ctx, recs, clauses):
-    chunks = [recs[i::NCPU] for i in range(NCPU)]
+    """Every emitted state replayed into the real routines (workers read their own file; only failing records return)."""
     with mp.get_context("fork").Pool(NCPU) as pool:
-        outs = pool.map(memcheck._chunk, chunks)
+        outs = pool.map(memcheck._chunk_file, [(f, recs.maxcors) for f in recs.files])
     n_bad = 0
-    for k, o in enumerate(outs):
-        for j, bad in enumerate(o):
-            rec = recs[k + j * NCPU]
+    for o in outs:
+        for rec, bad in o:
             for clause, det in bad:
                 if clause.startswith(clauses):
                     n_bad += 1
@@ -164,7 +172,7 @@ def run(ctx):
         replay_states(ctx, recs, ("C10_",))
         total += len(recs)
         shapes += len(recs)
-        ctx.add_samples([{k: r[k] for k in ("n", "maxcor", "hist", "X", "G", "B")} for r in recs[-2:]])
+        ctx.add_samples([{k: r[k] for k in ("n", "maxcor", "hist", "X", "G", "B")} for r in recs.samples])
     # random float histories
     rng = np.random.default_rng([ctx.seed, 10])
     specs = [{"family": ["qp", "qp4", "qpcos", "osc", "rosenbrock"][int(rng.integers(5))],
